@@ -12,9 +12,11 @@ import (
 	"errors"
 	"fmt"
 	"io"
+	"math"
 	"os"
 	"reflect"
 	"runtime"
+	"runtime/debug"
 	"runtime/pprof"
 	"strings"
 	"testing"
@@ -210,6 +212,8 @@ func (e *engine) runGroup(jobs []*job) {
 		if e.skip[j.pi.ID] || len(j.in) > inputLimit {
 			continue
 		}
+		debug.FreeOSMemory() // collect the previous call's garbage: the address space is limited
+		e.progress(&j.pi)
 		b0 := totalAlloc()
 		probeStarted.Store(time.Now().UnixNano())
 		guard(j.f)
@@ -317,16 +321,17 @@ func withCount(p int, b []byte, m tgen.Mark, n int64) ([]byte, bool) {
 			return nil, false
 		}
 	} else {
-		if n < 0 {
+		if n < 0 && n != math.MinInt64 {
 			return nil, false
 		}
+		u := uint64(n) // math.MinInt64 stands for 2^63
 		switch m.Kind {
 		case "list", "set":
 			t := old[0] & 0x0f
-			if n <= 14 {
-				hdr = []byte{byte(n)<<4 | t}
+			if u <= 14 {
+				hdr = []byte{byte(u)<<4 | t}
 			} else {
-				hdr = append([]byte{0xF0 | t}, uleb(uint64(n))...)
+				hdr = append([]byte{0xF0 | t}, uleb(u)...)
 			}
 		case "map":
 			if m.N == 0 {
@@ -335,13 +340,13 @@ func withCount(p int, b []byte, m tgen.Mark, n int64) ([]byte, bool) {
 				return nil, false
 			}
 			kv := old[len(old)-1]
-			if n == 0 {
+			if u == 0 {
 				hdr = []byte{0}
 			} else {
-				hdr = append(uleb(uint64(n)), kv)
+				hdr = append(uleb(u), kv)
 			}
 		case "strlen":
-			hdr = uleb(uint64(n))
+			hdr = uleb(u)
 		default:
 			return nil, false
 		}
@@ -617,13 +622,13 @@ func (e *engine) target() {
 		switch m.Kind {
 		case "list", "set", "map", "strlen":
 			n := int64(m.N)
-			cands := []int64{-1, -1 << 31, 1<<31 - 1, 1 << 24, n + 1, n - 1, 1 << 31, 1 << 35}
+			cands := []int64{-1, -1 << 31, 1<<31 - 1, 1 << 24, n + 1, n - 1, 1 << 31, 1 << 35, math.MinInt64 /* stands for 2^63 (compact) */}
 			for _, nv := range cands {
 				nv := nv
 				if nv == n || (nv < 0 && n == 0 && nv == n-1) {
 					continue
 				}
-				if isBinary(c.P) && nv > 1<<31-1 {
+				if isBinary(c.P) && (nv > 1<<31-1 || nv == math.MinInt64) {
 					continue
 				}
 				in, ok := withCount(c.P, valid, m, nv)
@@ -632,11 +637,17 @@ func (e *engine) target() {
 				}
 				hostile := nv < 0 || nv >= 1<<24
 				mut := fmt.Sprintf("count=%d", nv)
-				if nv < 0 && e.known[classNegCount] {
-					e.resp.Excl[classNegCount]++ // avoided by construction while listed
+				if nv == math.MinInt64 {
+					mut = "count=2^63"
+				}
+				// avoided by construction while the classes are listed: a negative
+				// container count, and a count the readers' range checks let through
+				// (2^24 .. 2^31-1), which sizes an allocation
+				if nv < 0 && nv != math.MinInt64 && m.Kind != "strlen" && e.known[classNegCount] {
+					e.resp.Excl[classNegCount]++
 					continue
 				}
-				if nv >= 1<<24 && e.known[classAlloc] {
+				if nv >= 1<<24 && nv <= 1<<31-1 && e.known[classAlloc] {
 					e.resp.Excl[classAlloc]++
 					continue
 				}
@@ -948,6 +959,9 @@ func knownClass(c *Case, pi *ProbeInfo, f *evid.Failure) string {
 	case f.Class == "alloc",
 		f.Class == "fatal" && (strings.Contains(obs, "out of memory") || strings.Contains(obs, "cannot allocate memory")),
 		f.Class == "panic" && (strings.Contains(obs, "len out of range") || strings.Contains(obs, "makeslice") || strings.Contains(obs, "makemap")):
+		if pi.Group == "mutate" && strings.HasPrefix(pi.Mut, "count=") && (pi.N < 0 || pi.N > 1<<31-1) {
+			return "" // the listed defect is about counts the readers' range checks accept
+		}
 		return classAlloc
 	case pi.Group == "prefix" && (f.Class == "prefix-no-error" || f.Class == "prefix-wrong-error") && pi.N > 0 && shortReadPossible(c):
 		return classShortRead
